@@ -228,17 +228,24 @@ class Constructs(mixin.Container, core.Constructs):
 
         ignore = self._ignore
 
-        out = {
-            axes: {
+        def new_entry():
+            return {
                 ctype: {}
                 for ctype in array_constructs
                 if ctype not in ignore and constructs.get(ctype)
             }
-            for axes in data_axes.values()
-        }
+
+        out = {axes: new_entry() for axes in data_axes.values()}
 
         for cid, construct in self.filter_by_data(todict=True).items():
-            axes = data_axes.get(cid)
+            # A construct for which no domain axes have been set
+            # (e.g. a cell measure construct that represents an
+            # external variable which has not been read) is treated as
+            # spanning no domain axes
+            axes = data_axes.get(cid, ())
+            if axes not in out:
+                out[axes] = new_entry()
+
             out[axes][construct_type[cid]][cid] = construct
 
         return out
